@@ -8,6 +8,26 @@ NOT_YET = {}
 TB = ("Trusted: Lean kernel (axioms propext, Classical.choice, Quot.sound only; audited by #print axioms on every run); "
       "the hand-written model's correspondence to the code (differential, bounded by the generators whose distribution is in the evidence); ")
 CLAIMS = {
+ "C01": dict(
+  category="proof",
+  text=("Lean 4 theorem per modelled entry family: for EVERY reply script (any datagrams of any content and size, silences, refused "
+        "sockets, failing sends), every setting and any behaviour of the external decoders, the model of the query returns a response "
+        "or an error, never a crash (panic / out-of-bounds / overflow / allocation failure are explicit crash branches of the model; loops "
+        "take fuel from the number of queued deliveries and 'fuel suffices' is proved, so termination is part of the theorem). Built from "
+        "a crash-freedom logic for parsers (Safe) and one for query computations (QSafe: log grows by permitted events, queues only "
+        "shrink). Tie + search: valid, mutated, oversized (to 64 KiB) and garbage scripts run on the real entry points under a panic hook, "
+        "an abort-surviving worker and an operation budget (hang detector), outcome and full transport trace compared with the model."),
+  note=TB + "entry families under a theorem are listed in the evidence (entry_families_under_theorem); families not yet modelled are not claimed here. Third-party decoders are parameters.",
+  technique="Lean 4 proof (Safe/QSafe program logics, fuel-sufficiency by a queue-length measure) + hostile-input differential"),
+ "C09": dict(
+  category="proof",
+  text=("Lean 4 theorems: the A2S request bytes equal the specification's literals; for every script, every event the Valve query logs is on "
+        "the one UDP socket it opened to the caller's port, every sent datagram is a protocol request optionally carrying a challenge, every "
+        "receive uses the 6144-byte buffer; challenge echo as an equation for every challenge value (after a kind-0x41 reply with payload c the "
+        "next action is sending the same request with exactly c); a non-challenge reply ends the exchange. Tie + oracle: the implementation's "
+        "sent datagrams (port + bytes, in order) equal the SPEC request list on generated exchanges with stratified challenge values."),
+  note=TB + "per-game default ports (definitions table) are covered under C14; further protocols are added as their models land.",
+  technique="Lean 4 proof (event invariant over all scripts + unfolding equation for the echo) + sent-log differential against SPEC"),
  "C08": dict(
   category="proof",
   text=("Lean 4 theorem, for any number of fragments and with no hypothesis on them: every arrival order of the same multiset of "
